@@ -22,12 +22,32 @@ mod parsers;
 use parsers::*;
 
 const HEADER: &str = r#"From ZV.Common Require Import Base Run.
-From ZV.C15 Require Import Model.
+From ZV.C15 Require Import Model ModelCases.
 Open Scope N_scope.
-Definition case_t : Type := N * N * list N * N * list Z.
-Definition ok (c : case_t) : bool :=
-  let '(pid, arg, bytes, code, vals) := c in check_case pid arg bytes code vals.
+Definition case_t : Type := xcase.
+Definition ok (c : case_t) : bool := xok c.
 "#;
+
+/// the Coq term of a case: (pid, arg, aux, bytes, (pad_count, pad_byte), code, vals); a long run of one
+/// byte at the end of the input is shipped as a count
+fn coq_case(pid: u32, arg: u64, aux: &[u64], bytes: &[u8], code: u8, vals: &[i128]) -> String {
+    let mut cut = bytes.len();
+    if bytes.len() > 64 {
+        let last = bytes[bytes.len() - 1];
+        while cut > 0 && bytes[cut - 1] == last { cut -= 1; }
+        if bytes.len() - cut < 32 { cut = bytes.len(); }
+    }
+    let (pc, pb) = if cut < bytes.len() { (bytes.len() - cut, bytes[cut]) } else { (0, 0) };
+    format!("({}, {}, {}, {}, ({}, {}), {}, {})", pid, arg, coq_n_list(aux.iter().map(|&x| x as u128)), coq_bytes(&bytes[..cut]), pc, pb, code, coq_z_list(vals.iter().cloned()))
+}
+/// bytes that remain after the run-length cut (bounds the size of a case file)
+fn coq_len(bytes: &[u8]) -> usize {
+    if bytes.len() <= 64 { return bytes.len(); }
+    let last = bytes[bytes.len() - 1];
+    let mut cut = bytes.len();
+    while cut > 0 && bytes[cut - 1] == last { cut -= 1; }
+    if bytes.len() - cut < 32 { bytes.len() } else { cut }
+}
 
 const AS_LIMIT: u64 = 1 << 30; // address-space limit of a child
 const SUBST: [u8; 5] = [0x00, 0x01, 0x7F, 0x80, 0xFF];
@@ -48,6 +68,42 @@ enum Src {
     Explicit { cases: Vec<(usize, u64, Vec<u8>)> },
     /// every `stride`-th case of `inner` (expensive parsers in the quick tier)
     Sub { inner: Box<Src>, stride: usize },
+    /// "long input with a lying length": a prefix of a valid encoding, then a length field (LEB128 / u32 / u64)
+    /// that declares 2^64-1, 2^63, 2^40, 2^32-1, payload+1 or exactly the payload, then 65535..200000 bytes of
+    /// real payload - so that a reader that works in chunks or blocks has received its first chunk(s) in
+    /// full before it meets the lie
+    Long { p: usize, seed: Vec<u8>, true_arg: u64, has_arg: bool },
+}
+
+const LONG_PAY: [usize; 5] = [65535, 65536, 65537, 131072, 200000];
+const LONG_LIES: usize = 12;
+const LONG_FILL: [u8; 2] = [0x61, 0x00];
+fn leb(mut v: u64) -> Vec<u8> {
+    let mut o = vec![];
+    loop { let b = (v & 0x7F) as u8; v >>= 7; if v == 0 { o.push(b); return o; } o.push(b | 0x80); }
+}
+fn long_ats(l: usize) -> Vec<usize> {
+    let mut v: Vec<usize> = (0..l.min(5)).collect();
+    if l > 5 { v.push(5 + (l - 5) / 2); }
+    v.push(l);
+    v.dedup();
+    v
+}
+fn long_lie(k: usize, pay: usize) -> Vec<u8> {
+    match k {
+        0 => { let mut v = vec![0xFF; 9]; v.push(0x01); v }
+        1 => { let mut v = vec![0x80; 9]; v.push(0x01); v }                    // 2^63: just above isize::MAX
+        2 => vec![0x80, 0x80, 0x80, 0x80, 0x80, 0x20],                          // 2^40
+        3 => vec![0xFF, 0xFF, 0xFF, 0xFF, 0x0F],                                // 2^32 - 1
+        4 => leb(pay as u64 + 1),
+        5 => leb(pay as u64),
+        6 => vec![0xFF; 4],
+        7 => (pay as u32 + 1).to_le_bytes().to_vec(),
+        8 => (1u64 << 40).to_le_bytes().to_vec(),
+        9 => vec![0xFF; 8],
+        10 => (pay as u64 + 1).to_le_bytes().to_vec(),
+        _ => (pay as u64).to_le_bytes().to_vec(),
+    }
 }
 
 fn positions(l: usize) -> Vec<usize> {
@@ -67,7 +123,7 @@ fn unhex(s: &str) -> Vec<u8> { (0..s.len() / 2).map(|i| u8::from_str_radix(&s[2 
 
 impl Src {
     fn parser(&self) -> Option<usize> {
-        match self { Src::Mut { p, .. } | Src::Enum { p, .. } | Src::Rand { p, .. } => Some(*p), Src::Explicit { .. } => None, Src::Sub { inner, .. } => inner.parser() }
+        match self { Src::Mut { p, .. } | Src::Enum { p, .. } | Src::Rand { p, .. } | Src::Long { p, .. } => Some(*p), Src::Explicit { .. } => None, Src::Sub { inner, .. } => inner.parser() }
     }
     fn len(&self) -> usize {
         match self {
@@ -80,6 +136,7 @@ impl Src {
             Src::Rand { count, .. } => *count,
             Src::Explicit { cases } => cases.len(),
             Src::Sub { inner, stride } => (inner.len() + stride - 1) / stride,
+            Src::Long { seed, has_arg, .. } => long_ats(seed.len()).len() * LONG_LIES * LONG_PAY.len() * LONG_FILL.len() * (if *has_arg { 4 } else { 1 }),
         }
     }
     /// (parser, arg, bytes, origin)
@@ -87,6 +144,19 @@ impl Src {
         match self {
             Src::Sub { inner, stride } => inner.get(i * stride),
             Src::Explicit { cases } => { let c = &cases[i]; (c.0, c.1, c.2.clone(), "explicit") }
+            Src::Long { p, seed, true_arg, has_arg } => {
+                let mut k = i;
+                let pay = LONG_PAY[k % LONG_PAY.len()]; k /= LONG_PAY.len();
+                let lie = k % LONG_LIES; k /= LONG_LIES;
+                let fill = LONG_FILL[k % LONG_FILL.len()]; k /= LONG_FILL.len();
+                let ats = long_ats(seed.len());
+                let at = ats[k % ats.len()]; k /= ats.len();
+                let arg = if *has_arg { [*true_arg, pay as u64 + 1, 1u64 << 40, u64::MAX][k % 4] } else { *true_arg };
+                let mut b = seed[..at].to_vec();
+                b.extend(long_lie(lie, pay));
+                b.resize(b.len() + pay, fill);
+                (*p, arg, b, "long_lying_length")
+            }
             Src::Enum { p, n, alpha, arg } => {
                 let mut b = Vec::with_capacity(*n);
                 let mut k = i;
@@ -185,6 +255,7 @@ impl Src {
             Src::Enum { p, n, alpha, arg } => json!({"k": "enum", "p": names[*p], "n": n, "alpha": hex(alpha), "arg": arg.to_string()}),
             Src::Rand { p, count, salt, args } => json!({"k": "rand", "p": names[*p], "count": count, "salt": salt.to_string(), "args": us(args)}),
             Src::Sub { inner, stride } => json!({"k": "sub", "stride": stride, "inner": inner.to_json(names)}),
+            Src::Long { p, seed, true_arg, has_arg } => json!({"k": "long", "p": names[*p], "seed": hex(seed), "true_arg": true_arg.to_string(), "has_arg": has_arg}),
             Src::Explicit { cases } => json!({"k": "explicit", "cases": cases.iter().map(|c| json!({"p": names[c.0], "arg": c.1.to_string(), "bytes": hex(&c.2)})).collect::<Vec<_>>()}),
         }
     }
@@ -195,6 +266,7 @@ impl Src {
         match v["k"].as_str().unwrap_or("") {
             "mut" => Src::Mut { p: pi(&v["p"]), seed: unhex(v["seed"].as_str().unwrap_or("")), args: ul(&v["args"]), true_arg: u(&v["true_arg"]), salt: u(&v["salt"]) },
             "enum" => Src::Enum { p: pi(&v["p"]), n: v["n"].as_u64().unwrap_or(0) as usize, alpha: unhex(v["alpha"].as_str().unwrap_or("")), arg: u(&v["arg"]) },
+            "long" => Src::Long { p: pi(&v["p"]), seed: unhex(v["seed"].as_str().unwrap_or("")), true_arg: u(&v["true_arg"]), has_arg: v["has_arg"].as_bool().unwrap_or(false) },
             "sub" => Src::Sub { inner: Box::new(Src::from_json(&v["inner"], names)), stride: v["stride"].as_u64().unwrap_or(1).max(1) as usize },
             "rand" => Src::Rand { p: pi(&v["p"]), count: v["count"].as_u64().unwrap_or(0) as usize, salt: u(&v["salt"]), args: ul(&v["args"]) },
             _ => Src::Explicit { cases: v["cases"].as_array().map(|a| a.iter().map(|c| (pi(&c["p"]), u(&c["arg"]), unhex(c["bytes"].as_str().unwrap_or("")))).collect()).unwrap_or_default() },
@@ -447,10 +519,19 @@ fn known_class(_name: &str, _bytes: &[u8], _arg: u64, _kind: &str, _msg: &str) -
 /// rough cost of one call in microseconds (measured with ZV_C15_TIMES=1); only steers sampling and load balance
 fn cost_us(name: &str) -> u64 {
     if name.starts_with("ContextualHuffman/decode_x") { 100_000 }
-    else if name == "ContextualHuffmanEncoder::deserialize+decode" { 14_000 }
+    // measured ~5 ms with the hand-made encoders, 14 ms with trained ones; budgeted so that the damaged
+    // hand-made encoders (context map and tree table a few bytes from the start) are all run
+    else if name == "ContextualHuffmanEncoder::deserialize+decode" { 700 }
     else if name == "Compressor/rans/decompress" { 3_000 }
     else if name.starts_with("Compressor/") || name.contains("Mmap") || name.contains("ZReorderMap") || name.contains("ContextualHuffman") || name.contains("fse") { 300 }
     else { 20 }
+}
+
+/// parsers that read in chunks or blocks (64 KiB `read_vec` chunks, 8 KiB skip buffers, 4096-element
+/// pre-allocation caps, block-structured files): they get the long-input family for every seed
+fn chunked(name: &str) -> bool {
+    ["DataInput", "MappedInput", "SerializableType", "ComplexTypeSerializer", "SmartPtrSerializer", "ZipOffset", "SortedUintVec", "ZReorderMap", "MmapVec",
+     "Dictionary", "DfaCache", "fse", "simd_encoding", "VarInt::decode_multiple", "sequence"].iter().any(|k| name.contains(k))
 }
 
 fn case_json(name: &str, arg: u64, bytes: &[u8], origin: &str) -> Value {
@@ -537,8 +618,12 @@ pub fn run(args: &Args) {
             };
             if seeds.is_empty() { sum.notes.push(format!("no valid encoding could be produced for {}", p.name)); }
             let max_seeds = if args.thorough { 12 } else { 6 };
+            // long inputs with a lying length: every seed for the readers that work in chunks / blocks,
+            // the first two (all in the thorough tier) for the rest
+            let max_long = if args.thorough || chunked(p.name) { max_seeds } else { 2 };
             for (k, s) in seeds.into_iter().take(max_seeds).enumerate() {
                 if s.bytes.len() > 6000 { continue; }
+                if k < max_long { srcs.push(Src::Long { p: pi, seed: s.bytes.clone(), true_arg: s.len, has_arg: p.has_arg }); }
                 srcs.push(Src::Mut { p: pi, seed: s.bytes, args: arg_list(p.has_arg, s.len), true_arg: s.len, salt: rng.next() ^ k as u64 });
             }
             srcs.push(Src::Rand { p: pi, count: if args.thorough { 4000 } else { 300 }, salt: rng.next(), args: arg_list(p.has_arg, 16) });
@@ -549,30 +634,62 @@ pub fn run(args: &Args) {
     if !replaying {
         let mult = if args.thorough { 12 } else { 1 };
         let mut per: std::collections::HashMap<usize, usize> = Default::default();
-        for s in &srcs { if let Some(p) = s.parser() { *per.entry(p).or_insert(0) += s.len(); } }
-        srcs = srcs.into_iter().map(|s| match s.parser() {
+        // a long input costs about ten short ones
+        for s in &srcs { if let Some(p) = s.parser() { *per.entry(p).or_insert(0) += s.len() * (if matches!(s, Src::Long { .. }) { 10 } else { 1 }); } }
+        // within a parser's budget the damaged valid encodings of SHORT seeds (hand-made minimal encodings: every
+        // field is a few bytes from the start) are run in full first; what is left is spread over the rest
+        let wlen = |s: &Src| s.len() * (if matches!(s, Src::Long { .. }) { 10 } else { 1 });
+        let mut full_budget: std::collections::HashMap<usize, usize> = Default::default();
+        let mut order: Vec<usize> = (0..srcs.len()).collect();
+        order.sort_by_key(|&i| wlen(&srcs[i]));
+        let mut keep_full = vec![false; srcs.len()];
+        let cap_of = |p: usize| (4_000_000 / cost_us(ps[p].name)).max(60) as usize * mult;
+        for &i in &order {
+            if let (Some(p), Src::Mut { .. }) = (srcs[i].parser(), &srcs[i]) {
+                if per[&p] <= cap_of(p) { continue; }
+                let used = full_budget.entry(p).or_insert(0);
+                if *used + wlen(&srcs[i]) <= cap_of(p) * 2 / 3 { *used += wlen(&srcs[i]); keep_full[i] = true; }
+            }
+        }
+        srcs = srcs.into_iter().enumerate().map(|(i, s)| match s.parser() {
             Some(p) => {
-                let cap = (4_000_000 / cost_us(ps[p].name)).max(60) as usize * mult;
+                let cap = cap_of(p);
                 let total = per[&p];
-                if total > cap { let stride = (total + cap - 1) / cap; sum.dist_max(&format!("subsampled_stride:{}", ps[p].name), stride as u64); Src::Sub { inner: Box::new(s), stride } } else { s }
+                if total > cap && !keep_full[i] {
+                    let used = full_budget.get(&p).copied().unwrap_or(0);
+                    let rest_cap = cap.saturating_sub(used).max(cap / 3).max(1);
+                    let rest_total = total - used;
+                    let stride = (rest_total + rest_cap - 1) / rest_cap;
+                    sum.dist_max(&format!("subsampled_stride:{}", ps[p].name), stride as u64);
+                    if stride > 1 { Src::Sub { inner: Box::new(s), stride } } else { s }
+                } else { s }
             }
             None => s,
         }).collect();
     }
 
     // ---- which cases also go to the Coq model ---------------------------------------------------
-    let coq_budget: usize = if args.thorough { 6000 } else { 1300 };
-    // budget split: damaged valid encodings 70 %, enumerated 15 %, random 15 %
+    let coq_budget: usize = if args.thorough { 6000 } else { 420 };
+    // hard ceiling on the number of Coq cases (the budget above steers the strides and should stay below it)
+    let coq_cap: usize = if args.thorough { 12000 } else { 1600 };
+    // budget split: damaged valid encodings 66 %, enumerated 14 %, random 14 %, long inputs with a lying length 6 %
     let kind_of = |s: &Src| -> usize { let b = match s { Src::Sub { inner, .. } => &**inner, x => x }; match b { Src::Mut { .. } => 0, Src::Enum { .. } => 1, Src::Rand { .. } => 2, _ => 3 } };
-    let modelled = |s: &Src| s.parser().map(|p| ps[p].model != 0).unwrap_or(false);
+    // long inputs go to Coq only for models that run in linear time (the sequence decoders re-measure the
+    // remaining slice in every iteration, the PA-Zip model appends to its observation list)
+    let coq_long_ok = |m: u32| matches!(m, 1 | 3 | 10..=26 | 50 | 51 | 52 | 53 | 54 | 80 | 81 | 90 | 91 | 100 | 103 | 82 | 140 | 142 | 150..=153);
+    let is_long = |s: &Src| matches!(match s { Src::Sub { inner, .. } => &**inner, x => x }, Src::Long { .. });
+    let modelled = |s: &Src| s.parser().map(|p| ps[p].model != 0 && (!is_long(s) || coq_long_ok(ps[p].model))).unwrap_or(false);
     let mut kind_total = [0usize; 4];
     for s in srcs.iter().filter(|s| modelled(s)) { kind_total[kind_of(s)] += s.len(); }
-    let share = [70usize, 15, 15, 0];
+    let share = [66usize, 14, 14, 6];
     let strides: Vec<usize> = srcs.iter().map(|s| match s {
         Src::Explicit { cases } => if cases.iter().any(|c| ps[c.0].model != 0) { 1 } else { 0 },
         _ => if modelled(s) {
             let k = kind_of(s);
-            let st = (kind_total[k] * 100 / (coq_budget * share[k]).max(1)).max(1);
+            let mut st = (kind_total[k] * 100 / (coq_budget * share[k]).max(1)).max(1);
+            // the file / table loaders (header checks with narrow windows of file lengths) are sampled three
+            // times as densely as the 30-odd varint cells that share one model
+            if s.parser().map(|p| matches!(ps[p].model, 90 | 91 | 103 | 104 | 140 | 141 | 142)).unwrap_or(false) { st = (st / 3).max(1); }
             // odd stride: walks through every mutation kind
             if s.len() <= 2 { 1 } else { st | 1 }
         } else { 0 },
@@ -601,7 +718,7 @@ pub fn run(args: &Args) {
                 for i in 0..n { sum.eval(p.name, &format!("{}:{}", si, i), nontrivial); }
                 sum.cell_status(p.name, if p.model != 0 { "M+S" } else { "S-only" });
                 let base = match s { Src::Sub { inner, .. } => &**inner, x => x };
-                let kind = match base { Src::Mut { .. } => "cases_mutated_valid", Src::Enum { .. } => "cases_enumerated", _ => "cases_random" };
+                let kind = match base { Src::Mut { .. } => "cases_mutated_valid", Src::Enum { .. } => "cases_enumerated", Src::Long { .. } => "cases_long_lying_length", _ => "cases_random" };
                 *sum.distribution.entry(kind.to_string()).or_insert(0) += n as u64;
             }
         }
@@ -620,6 +737,15 @@ pub fn run(args: &Args) {
         sum.sample(json!({"parser": ps[*p].name, "valid_encoding": seed.iter().take(40).collect::<Vec<_>>()}));
     }
 
+    // auxiliary numbers of a case: inline, or the parser's index into the environment of the case file
+    let env_used: std::cell::RefCell<std::collections::BTreeMap<u32, usize>> = Default::default();
+    let aux_cache: std::cell::RefCell<std::collections::HashMap<usize, Vec<u64>>> = Default::default();
+    let aux_of = |p: usize| -> Vec<u64> {
+        if ps[p].env != 0 { env_used.borrow_mut().entry(ps[p].env).or_insert(p); return vec![ps[p].env as u64]; }
+        aux_cache.borrow_mut().entry(p).or_insert_with(|| (ps[p].aux)()).clone()
+    };
+    // hex_decode(&str): the cell refuses bytes that are not UTF-8 before the parser sees them
+    let aux_for = |p: usize, bytes: &[u8]| -> Vec<u64> { if ps[p].model == 82 || (150..=153).contains(&ps[p].model) { vec![std::str::from_utf8(bytes).is_ok() as u64] } else { aux_of(p) } };
     // ---- oracle verdicts ---------------------------------------------------------------------------
     let mut failed: std::collections::HashSet<(usize, usize)> = Default::default();
     for f in &res.fails {
@@ -632,8 +758,8 @@ pub fn run(args: &Args) {
         let mut cj = case_json(name, arg, &bytes, origin);
         cj["observed"] = json!(format!("{}: {}", f.kind, f.msg));
         sum.fail(name, class, cj, &format!("{} returned neither a value nor an error: {} ({}) on a {} input of {} bytes, arg {}", name, f.kind, f.msg, origin, bytes.len(), arg));
-        if ps[p].model != 0 && bytes.len() <= 300 && shards.len() < 2 * coq_budget {
-            let term = format!("({}, {}, {}, 2, []%Z)", ps[p].model, arg, coq_bytes(&bytes));
+        if ps[p].model != 0 && coq_len(&bytes) <= 600 && shards.len() < coq_cap {
+            let term = coq_case(ps[p].model, arg, &aux_for(p, &bytes), &bytes, 2, &[]);
             let mut cj2 = case_json(name, arg, &bytes, origin);
             cj2["impl_obs"] = json!(format!("crash: {}", f.kind));
             shards.push(term, cj2);
@@ -643,13 +769,48 @@ pub fn run(args: &Args) {
     for o in &res.obs {
         if failed.contains(&(o.src, o.i)) { continue; }
         let (p, arg, bytes, origin) = srcs[o.src].get(o.i);
-        if ps[p].model == 0 || bytes.len() > 300 || shards.len() >= 2 * coq_budget { continue; }
-        let term = format!("({}, {}, {}, {}, {})", ps[p].model, arg, coq_bytes(&bytes), o.code, coq_z_list(o.vals.iter().cloned()));
+        if ps[p].model == 0 || coq_len(&bytes) > 600 { continue; }
+        sum.dist("coq_cases_before_cap");
+        if shards.len() >= coq_cap { continue; }
+        // rANS: an expected length the model would have to materialise symbol by symbol
+        if (120..=123).contains(&ps[p].model) && arg > (1 << 16) && arg <= 100 * 1024 * 1024 { continue; }
+        let term = coq_case(ps[p].model, arg, &aux_for(p, &bytes), &bytes, o.code, &o.vals);
         let mut cj = case_json(ps[p].name, arg, &bytes, origin);
         cj["impl_obs"] = json!({"code": o.code, "vals": o.vals.iter().map(|x| x.to_string()).collect::<Vec<_>>()});
         shards.push(term, cj);
     }
     sum.dist_max("coq_cases", shards.len() as u64);
+    // ---- case file header: the trained encoders, defined and parsed once per file -----------------
+    {
+        let mut h = String::from(concat!(
+            "From Coq Require Import Uint63.\nFrom ZV.Common Require Import Base Run.\nFrom ZV.C15 Require Import Model ModelHuff ModelCases.\nOpen Scope N_scope.\n",
+            "Definition case_t : Type := xcase.\n",
+            "Fixpoint le_bytes (k : nat) (w : N) : list N := match k with O => [] | S k' => w mod 256 :: le_bytes k' (w / 256) end.\n",
+            "Definition int_bytes (i : int) : list N := le_bytes 7 (Z.to_N (Uint63.to_Z i)).\n",
+            "Definition unpack_words (len : N) (ws : list int) : list N := firstn (N.to_nat len) (flat_map int_bytes ws).\n",
+            "Fixpoint mk_cenv (l : list (N * N * list int)) : cenv_t :=\n  match l with\n  | [] => []\n  | (k, len, ws) :: rest =>\n      match cenc_of_aux (unpack_words len ws) with Some e => (k, e) :: mk_cenv rest | None => mk_cenv rest end\n  end.\n"));
+        let mut entries = vec![];
+        for (&key, &p) in env_used.borrow().iter() {
+            let aux = (ps[p].aux)();
+            // 7 bytes per primitive-integer literal (coqc reads N literals at ~100 us each), in chunks
+            let mut words: Vec<String> = vec![];
+            for ch in aux.chunks(7) {
+                let mut w: u64 = 0;
+                for (i, b) in ch.iter().enumerate() { w |= (*b & 0xFF) << (8 * i); }
+                words.push(w.to_string());
+            }
+            let mut names = vec![];
+            for (k, ch) in words.chunks(2000).enumerate() {
+                h.push_str(&format!("Definition aux_{}_{} : list int := [{}]%uint63.\n", p, k, ch.join("; ")));
+                names.push(format!("aux_{}_{}", p, k));
+            }
+            if names.is_empty() { names.push("[]".to_string()); }
+            entries.push(format!("({}, {}, {})", key, aux.len(), names.join(" ++ ")));
+        }
+        h.push_str(&format!("Definition cenv : cenv_t := Eval vm_compute in mk_cenv [{}].\n", entries.join("; ")));
+        h.push_str("Definition ok (c : case_t) : bool := xok_env cenv c.\n");
+        shards.header = h;
+    }
     let sh = shards.write(&args.out);
     sum.write(&args.out, sh);
 }
